@@ -146,6 +146,14 @@ def run_scenario(sc):
                 begin(('listen', sim.now))
             orig_listen(self, listener, question)
 
+        orig_resp = zrm.RecordManager.async_updates_from_response
+
+        def from_response(self, msg):
+            lab = state.pop('pending', None)
+            if lab is not None:
+                begin(lab)
+            orig_resp(self, msg)
+        zrm.RecordManager.async_updates_from_response = from_response
         zengine.AsyncEngine._async_cache_cleanup = cleanup
         zbrowser.QueryScheduler._process_startup_queries = startup
         zbrowser.QueryScheduler._process_ready_types = ready
@@ -204,8 +212,12 @@ def run_scenario(sc):
                         out['browse_at'] = sim.now - t0
                     else:
                         data = build_response(ev[2])
-                        begin(('resp', sim.now, ev[2]))
+                        # the label is logged when the record manager gets the message: a datagram byte-identical to the previous one
+                        # less than a second earlier is dropped by the listener's duplicate guard (C16) and is not a step of the browser
+                        state['pending'] = ('resp', sim.now, ev[2])
                         sim.net.inject(b, data, ('10.0.0.9', 5353))
+                        if state.pop('pending', None) is not None:
+                            out.setdefault('suppressed', []).append(ev[1])
                         check_live('datagram')
                 await sim.sleep_until(t0 + sc['horizon'])
                 br = state['browser']
@@ -221,6 +233,7 @@ def run_scenario(sc):
             zbrowser.QueryScheduler.start = orig_start
             zbrowser.QueryScheduler.async_send_ready_queries = orig_send
             zrm.RecordManager.async_add_listener = orig_listen
+            zrm.RecordManager.async_updates_from_response = orig_resp
         out['escaped'] = list(sim.loop.escaped)
     out['labels'] = labels
     out['callbacks'] = callbacks
@@ -246,6 +259,10 @@ def oracle_c04(sc, out):
                 if r['kind'] == 'KPointer':
                     ttl = max(r['ttl'], 1125) if r['ttl'] else 0
                     if ev[1] + 1000 * ttl <= out['browse_at'] + 10000:
+                        return None
+                    if r['cls'] & 0x8000:
+                        # a pointer record with the cache-flush bit makes the other cached pointers of its type expire one second
+                        # later: they may be expired-but-unpurged when the browser is created (same hypothesis)
                         return None
     per_key = {}
     for (t, kind, typ, name) in out['callbacks']:
@@ -289,7 +306,7 @@ def oracle_c10(sc, out):
     life = {}
     events = []
     for ev in sc['events']:
-        if ev[0] == 'resp':
+        if ev[0] == 'resp' and ev[1] not in out.get('suppressed', ()):      # a datagram dropped by the duplicate guard taught nothing
             for r in ev[2]:
                 if r['kind'] == 'KPointer' and r['name'] in sc['types']:
                     events.append((t0 + ev[1], r['name'], r['alias'].lower(), max(r['ttl'], 1125) if r['ttl'] else 0))
@@ -313,8 +330,11 @@ def oracle_c10(sc, out):
                 return (f"pointer {alias} learned at +{c - t0} with ttl {ttl}: no refresh query for {ty} in [+{lo - t0}, +{due + D - t0}] "
                         f"(step {step}: 75 % of the TTL plus {step} x 10 %); queries for the type at {[s[0] - t0 for s in sends if ty in s[2]][-8:]}"), ()
             on_time = [h for h in hits if h[0] >= due]
-            if not on_time:
-                break      # the no-churn rule kept an older schedule entry (possibly with another TTL): not followed further
+            if not on_time or hits[0][0] < due:
+                # a query before the due instant: the no-churn rule kept the schedule entry of the previous copy of the record (created
+                # up to the configured delay earlier, possibly with another TTL, whose 10 % steps differ): the refresh attempts follow
+                # that entry and are not tracked further against this copy's TTL
+                break
             sent = on_time[0][0]
             due = lo = sent + ttl * 100
             step += 1
